@@ -41,11 +41,13 @@ CLAIMED = {
              'reproduced at its temperature, Cp clamped outside the span, H/RT and S/R at T_ref equal the reference values for every '
              'placement of T_ref, G = H - S, construction independent of supply order (sorting uniqueness), data span bounds; for all '
              'tables and placements. The spline is an explicit function parameter whose assumed contract appears as hypotheses. '
-             'Integral clauses are decided on every run by a numerical-quadrature oracle on the implementation (and by the '
-             'correspondence), not yet by a theorem (see DESIGN 5/C05 full depth). Tie: model executed over exact rationals with '
+             'Integral clauses are theorems over Coquelicot is_RInt: T*H/RT = H_ref*T_ref + integral of the clamped Cp/R from T_ref to T, '
+             'S/R = S_ref + integral of Cp/R/t, and differences between any two temperatures are those integrals, for every placement '
+             'of T_ref and T; the contract of spline.integral / quad (they are the integrals of the spline) is a hypothesis, probed by a '
+             'numerical-quadrature oracle on the implementation on every run. Tie: model executed over exact rationals with '
              'oracle tables from the same SciPy objects vs implementation.',
         design='5 / C05',
-        note=TB + 'Axioms: standard-library real-number axioms as printed. SciPy spline/quad/log are oracles (tables in the '
+        note=TB + 'Axioms: standard-library real-number axioms as printed (also via Coquelicot). SciPy spline/quad/log are oracles (tables in the '
              'correspondence, hypotheses in the theorems).',
         technique='Coq proof over R of the branch-faithful model + vm_compute correspondence with oracle tables + quadrature oracle'),
     'C06': dict(
